@@ -101,24 +101,24 @@ def CASES(tier, seed):
         first_pattern = st['legs'][0]['qconj'] == 1 and st['legs'][1]['qconj'] == -1
         if tier == 'quick' and not first_pattern:
             continue
-        ops = [o for o in opsA if P1.COST_A.get(tuple(o), 1.5) < (P1.HEAVY if st['mods'][0] != 3 else 3)]
+        ops = [o for o in opsA if P1.COST_A.get(tuple(o), 1.5) < (P1.HEAVY if st['mods'][0] != 3 else 3) and tuple(o) != ('add_leg', 'back')]
         if tier == 'thorough':  # sized by CPU time: the quick variants below 30 s on the first pattern, core selection on the others
             from props.c02_invariants import CORE_OPS
             qv = [(n, v) for n, sp in C.OPS.items() if 'A' in sp.tiers and n != 'norm' for v in sp.quick]
             ops = [o for o in qv if P1.COST_A.get(tuple(o), 1.5) < 30] if first_pattern else [o for o in opsA if tuple(o) in CORE_OPS]
-        for ci, chunk in enumerate(P1._balanced(ops, P1.COST_A, 10)):
+        for ci, chunk in enumerate(P1._balanced(ops, P1.COST_A, 4 if tier == 'quick' else 10)):  # small cases: the wall-time cap also holds on a loaded machine
             cases.append(dict(name=f"A[mod={st['mods']},qconj={[l['qconj'] for l in st['legs']]}]ops{ci}:{P1._opsname(chunk)}",
                               fn='alias_case', params=dict(struct=st, ops=chunk, cplx=(si % 4 == 0), subset='all',
                                                            prestate='sorted' if si % 4 else 'reversed',
                                                            write_groups=2 if (tier == 'quick' or not first_pattern) else 3), opts=OA))
     OB = dict(max_paths=40000, max_wall_s=200 if tier == 'quick' else 1500, validate_paths=3, hard_timeout_s=230 if tier == 'quick' else 1700)
     for si, st in enumerate(P1.structs_B(tier, seed)):
-        if (tier == 'quick' and si not in (0, 1, 2, 4, 7, 8, 9)) or st['rank'] > 3 or (tier != 'quick' and P1.dense_size(st) > 64):
-            continue  # rank 4 / large structures: C01 thorough only
+        if (tier == 'quick' and si not in (0, 1, 2, 4, 7, 8, 9)) or st['rank'] > 3 or (tier != 'quick' and (P1.dense_size(st) > 40 or si == 3)):
+            continue  # rank 4 / large structures: C01 thorough only; B[3] (Z3, all charges equal): solver-dominated (25 min for 121 paths), see notes
         for ci, chunk in enumerate(P1._chunks(opsB, 14 if (tier == 'quick' or st['rank'] <= 3) else 8)):
             cases.append(dict(name=f"B[{si},mod={st['mods']},rank={st['rank']}]ops{ci}:{P1._opsname(chunk)}",
                               fn='alias_case', params=dict(struct=st, ops=chunk, cplx=(si % 2 == 1), subset='draw' if si % 3 else 'all',
-                                                           prestate=['sorted', 'reversed'][si % 2], write_groups=3 if tier == 'quick' else 4),
+                                                           prestate=['sorted', 'reversed'][si % 2], write_groups=3),
                               opts=OB))
     slow = float(__import__('os').environ.get('VERIF_SLOW', '1') or 1)  # development on a loaded machine only
     if slow != 1:
